@@ -1,0 +1,22 @@
+//go:build verif
+
+package client
+
+// Verification hooks for property C17 (offset filters): read-only views of the
+// filters' unexported state. Built only with -tags verif.
+
+// VerifNtimedState returns the epoch and the running averages of f
+// (alo, amid, ahi, alolo, ahihi, navg).
+func VerifNtimedState(f *NtimedFilter) (epoch uint64, avgs [6]float64) {
+	return f.epoch, [6]float64{f.alo, f.amid, f.ahi, f.alolo, f.ahihi, f.navg}
+}
+
+// VerifLuckyState returns cap(f.state), f.pick, and the offsets and round-trip
+// delays of the samples in the window, oldest first.
+func VerifLuckyState(f *LuckyPacketFilter) (capacity, pick int, offs, rtds []int64) {
+	for _, m := range f.state {
+		offs = append(offs, int64(m.off))
+		rtds = append(rtds, int64(m.rtd))
+	}
+	return cap(f.state), f.pick, offs, rtds
+}
